@@ -221,6 +221,17 @@ def r9_emit_total(c, facts, rule='C04.R9'):
                         if b['k'] == 'call' and variant_of(b['f']) == 'Some':
                             sv |= vs
                     some_sets[fn.id] = sv
+    # `pred(&s.expr).then_some(s)`: the Some set is the set of variants on which the (workspace) predicate is true
+    from absint import Interp, TRUE
+    for fn in facts.fns.values():
+        if fn.crate != 'oal_openapi' or not fn.hir or fn.id in some_sets or 'Option<' not in (fn.d.get('sig_output') or ''):
+            continue
+        for e, anc in hir_walk(fn.hir['body']):
+            if e['k'] == 'mcall' and e['name'] in ('then_some', 'then') and e['recv']['k'] in ('call', 'mcall'):
+                pf = facts.fns.get(callee_id(e['recv']))
+                if pf is not None and pf.hir and pf.hir['params'] and (pf.d.get('sig_output') or '') == 'bool' and any('SchemaExpr' in (a.get('ty') or '') for a in (e['recv'].get('args') or [])):
+                    it = Interp(facts, 'SchemaExpr')
+                    some_sets[fn.id] = {v for v in allv if it.run_pred(pf, v) == TRUE}
     # partiality propagates to a caller that hands its own parameter on without narrowing it (a dispatch split off into
     # a helper: `value_schema(s)` -> `expr_schema(&s.expr)`): the obligation then lies with that caller's callers
     passthrough = set()
